@@ -683,6 +683,8 @@ def portuguese():
     rows.append({"word": ",", "cls": "comma", "digits": "", "marker": None, "expect": None, "desc": "a comma is never a number word (it ends the number in progress)"})
     rows.append({"word": "e", "cls": "link", "digits": "", "marker": None, "expect": None, "desc": "the conjunction: a link word once the number has two digits (not right after `cem`); it lifts the ban on a following number below one hundred"})
     rows.append({"word": "mil", "cls": "scale", "digits": "", "marker": None, "expect": "1000", "desc": "multiplies the last group by 1000 (implicit one on an empty group; not `um mil`, not `cento mil`)"})
+    for w_, mk_ in (("milésimo", "º"), ("milésima", "ª"), ("milésimos", "ᵒˢ"), ("milésimas", "ᵃˢ")):
+        rows.append({"word": w_, "cls": "oscale", "digits": "", "marker": mk_, "expect": "1000" + mk_, "desc": f"ordinal thousand, marker `{mk_}`"})
     rows.append({"word": "vírgula", "cls": "sep", "digits": "", "marker": None, "expect": None, "desc": "the decimal separator is not a number word: refused outright, the digits untouched"})
 
     def strip_all(w, sfx):
@@ -721,6 +723,8 @@ def portuguese():
             return f"!pt_model({W(',')}, o).ok && !(pt_model({W(',')}, o).err is Incomplete)"
         if r["cls"] == "link":
             return f"(o.marker is None) ==> res_same(pt_model({W('e')}, o), pt_fin(if size_of(o) >= 2 && !pt_only_mult(o) {{ err_res(o, Error::Incomplete) }} else {{ err_res(o, Error::NaN) }}, 0, MorphologicalMarker::None))"
+        if r["cls"] == "oscale":
+            return f"(is_empty_spec(o) || marker_same(pt_marker_of_kind({WANT[r['marker']]}), o.marker)) ==> res_same(pt_model({W(r['word'])}, o), pt_fin(pt_mil_base(o), 0, pt_marker_of_kind({WANT[r['marker']]})))"
         if r["cls"] == "sep":
             return f"!pt_model({W(r['word'])}, o).ok && !(pt_model({W(r['word'])}, o).err is Incomplete) && core_same(pt_model({W(r['word'])}, o).v, o)"
         if r["cls"] == "scale":
@@ -767,6 +771,35 @@ def portuguese():
     d.append(f"pub proof fn lemma_pt_link_sep() ensures {W('e')} != {W('vírgula')} {{ lemma_pt_word_{idx['vírgula']}(); lemma_pt_word_{idx['e']}(); pt_ne_{wname(lemma_of('vírgula'))}(); }}")
     for nm, w in [("lemma_pt_cem", "cem"), ("lemma_pt_e", "e"), ("lemma_pt_mil", "mil"), ("lemma_pt_zero", "zero"), ("lemma_pt_virgula", "vírgula")]:
         d.append(f"pub proof fn {nm}(o: DsView) ensures {row_stmt(byw[w])} {{ {c}_rows_{modof[w]}::lemma_{c}_row_{wname(w)}(o); }}")
+    # ordinals: value -> base word (masculine singular); forms k = 3 (-o), 4 (-os), 1 (-a), 2 (-as)
+    ovals = {int(v): (w, cls_) for w, (cls_, v) in ords.items()}
+    CLSN = {"ordunit": 5, "ordnono": 6, "small": 2, "hundred": 4}
+
+    def forms(w):
+        return {3: w, 4: w + "s", 1: w[:-1] + "a", 2: w[:-1] + "as"}
+    body = []
+    for v in sorted(ovals):
+        f = forms(ovals[v][0])
+        body.append(f"if v == {v} {{ if k == 3 {{ {W(f[3])} }} else if k == 4 {{ {W(f[4])} }} else if k == 1 {{ {W(f[1])} }} else {{ {W(f[2])} }} }}")
+    mf = forms("milésimo")
+    d.append("/// the ordinal word of value v (1..10, 20..90, 100..900) in the gender/number form k (3: -o, 4: -os, 1: -a, 2: -as)")
+    d.append("#[verifier::opaque] pub open spec fn pt_ord_w(v: int, k: int) -> Seq<char> { " + " else ".join(body) + " else { " + W("milésimo") + " } }")
+    d.append("pub open spec fn pt_ord_val(v: int) -> bool { (1 <= v <= 10) || (v % 10 == 0 && 20 <= v <= 90) || (v % 100 == 0 && 100 <= v <= 900) }")
+    d.append("pub open spec fn pt_ord_d(v: int) -> Seq<u8> { if v < 10 { d1((48 + v) as u8) } else if v < 100 { d2((48 + v / 10) as u8, 48u8) } else { d3((48 + v / 100) as u8, 48u8, 48u8) } }")
+    d.append("pub open spec fn pt_ord_cls(v: int) -> int { if v == 9 { 6 } else if v < 10 { 5 } else if v < 100 { 2 } else { 4 } }")
+    d.append("pub proof fn lemma_pt_ord(v: int, k: int, o: DsView)")
+    d.append("    requires pt_ord_val(v), 1 <= k <= 4")
+    d.append("    ensures pt_row(pt_ord_d(v), k, pt_ord_cls(v), o, pt_model(pt_ord_w(v, k), o))")
+    d.append("{")
+    d.append("    reveal(d1); reveal(d2); reveal(d3); reveal(pt_ord_w);")
+    for v in sorted(ovals):
+        f = forms(ovals[v][0])
+        assert CLSN[ovals[v][1]] == (6 if v == 9 else 5 if v < 10 else 2 if v < 100 else 4), (v, ovals[v])
+        d.append(f"    if v == {v} {{ assert(pt_ord_d(v) =~= {digs(str(v))}); " + " ".join(f"if k == {kk} {{ pt_rows_{modof[f[kk]]}::lemma_pt_row_{wname(f[kk])}(o); }}" for kk in (1, 2, 3, 4)) + " }")
+    d.append("}")
+    d.append("pub open spec fn pt_mil_ow(k: int) -> Seq<char> { " + f"if k == 3 {{ {W(mf[3])} }} else if k == 4 {{ {W(mf[4])} }} else if k == 1 {{ {W(mf[1])} }} else {{ {W(mf[2])} }}" + " }")
+    d.append("pub proof fn lemma_pt_mil_o(k: int, o: DsView) requires 1 <= k <= 4, is_empty_spec(o) || marker_same(pt_marker_of_kind(k), o.marker) ensures res_same(pt_model(pt_mil_ow(k), o), pt_fin(pt_mil_base(o), 0, pt_marker_of_kind(k))) { "
+             + " ".join(f"if k == {kk} {{ pt_rows_{modof[mf[kk]]}::lemma_pt_row_{wname(mf[kk])}(o); }}" for kk in (1, 2, 3, 4)) + " }")
     open(os.path.join(T, "pt_dispatch.inc"), "w", encoding="utf-8").write("\n".join(d) + "\n")
     print(c + ":", len(arms), "arms,", len(rows), "rows,", len(allwords), "words")
 
